@@ -62,7 +62,9 @@ def compare_state(c, mv, e_next, rtol, where, e_prev_marg=None):
     if c["strat"] != "filter":
         mc, k = split_conds(mv, N, cc, nb, k)
         for a in range(nb):
-            mism, w = gen.compare_cond_plain(impl_cond_plain(e_next["cond"][a]), mc[a], max(rtol, 1e-6), where=f"{where} block {a} backward",
+            # backward gains have entries ~(1/h)^q in the scaled coordinates: their conditioning grows with q
+            mism, w = gen.compare_cond_plain(impl_cond_plain(e_next["cond"][a]), mc[a], max(rtol, 1e-6) * (4.0 ** max(0, c["q"] - 3)),
+                                             where=f"{where} block {a} backward",
                                              marg=e_prev_marg[a] if e_prev_marg else None)
             if mism:
                 return mism, None
@@ -157,7 +159,11 @@ def check_trajectories(ck, cases, pid, rtol=2e-7, describe=None, shard=25, what=
         c["routine"] = "trajectory"
         # solver.init with the initial-constraint update (constraint_init = the solver's own constraint) on a third of the cases whose
         # initial state is not exact (exact initial states make the innovation matrix singular: SVD least squares, not modelled)
-        if c.get("init_mode") != "exact" and "cinit" not in c:
+        # ... and only where the initial-constraint update is well-posed: the observed coefficient u^(ord) must not be known exactly
+        # (std 0 with damp 0 makes the innovation variance zero while the residual is not: a zero-probability observation, inf/NaN)
+        k_ = c["ord"]
+        obs_std = [c["std"][k_]] if c["kind"] == "iso" else list(c["std"][k_])
+        if c.get("init_mode") != "exact" and "cinit" not in c and all(x != 0 for x in obs_std):
             hsh = hashlib.sha256(json.dumps(gen.jsonable(c), sort_keys=True).encode()).digest()[0]
             c["cinit"] = (hsh % 3 == 0)
     ires = lib.run_impl("solve_impl.py", {"cases": [gen.floatable(c) for c in cases]}, timeout=3000)["results"]
